@@ -37,6 +37,12 @@ META = {
             'carrying inside the wide run (IETF: ending exactly at 2^38); longest block-aligned call; across k*2^32 '
             'blocks, k >= 2; boundary-directed position; IETF one byte past 2^38 (atomic Err) / 64-bit across 2^64 bytes; '
             'data of calls >= 2 KiB is the computable sequence Pat(len, seed) (Run/ChaCha.v), everything else random; '
+            'PLUS one LONG call per run (appended after the counted cases; variant, position shape - mid-block near 0 / across '
+            '2^32 blocks after the 64th wide iteration or ending exactly at 2^38 / random odd - rotate with the seed): '
+            'seek + ONE apply_keystream of 64 KiB + 256..4255 bytes (> 256 wide iterations, > 2^16 bytes); three 512-byte '
+            'windows of its output (around the 65th wide iteration, around byte 2^16 of the wide run, the last 512 bytes) '
+            'are compared with model and spec as cases "seek(pos+offset), apply(512)", and the WHOLE output must equal what '
+            'a second object gives for the same data in 4 KiB calls (direct failure otherwise; evidence key long_call); '
             'constructor under catch_unwind; distinct = distinct (type,key,nonce,pos,data); non-trivial = non-empty data; '
             "the implementation's result (ok/err/panic) and output bytes are compared with the model and with the spec "
             'inside coqc; direct: ok iff pos+len <= limit, Err leaves the data unchanged, current_pos::<u128>() '
@@ -80,9 +86,10 @@ def run(ctx):
             bins[profile] = binary
         s = vlib.correspondence(ctx, bins[profile], "c01", ["--count", cnt, "--level", level] + big + large(level == 0),
                                 "%s-backend/%s" % (name, profile))
-        ctx.log("%s/%s: %d cases, %d disagree, %d direct failures, longest call %s wide iterations" %
+        ctx.log("%s/%s: %d cases, %d disagree, %d direct failures, longest call %s wide iterations (%s bytes, whole output = 4 KiB calls: %s)" %
                 (name, profile, s.get("evaluations", 0), len(s["failing"]), len(s.get("direct_failures", [])),
-                 s.get("max_wide_loop_iterations_in_one_call")))
+                 s.get("max_wide_loop_iterations_in_one_call"), (s.get("long_call") or {}).get("len"),
+                 (s.get("long_call") or {}).get("whole_output_same_as_4KiB_calls")))
         if s.get("backend_level_read_back") != level:
             raise vlib.CheckError("back-end level %d requested, the harness reports %r" % (level, s.get("backend_level_read_back")))
         vlib.decide_absolute(ctx, s, explain="explain_c01",
